@@ -140,41 +140,17 @@ theorem follower_expiry_deferred (db : DB) (key rid : Nat) (hk : db.hasKey key =
     ((fireExpire db key rid).1.getKey key).locks = (db.getKey key).locks := by
   have hd : deferExpiry db ((db.getKey key).getR rid) = true := by
     unfold deferExpiry WAIT_LEADER_MAX; simp [hl, ha]; omega
-  unfold fireExpire W.fireExpire
-  simp only [DB.openKey]
-  rw [he]
-  simp only [Bool.false_eq_true, if_false, hd, if_true]
-  rw [addExpried_off_leader _ _ (by simpa using hl)]
-  have hcm : (((({ db := db, k := db.getKey key, gone := !db.hasKey key } : W).modR rid fun r => { r with eSched := none }).modR rid
-      fun r => { r with expT := db.now + 30 }).schedExpried rid).commit =
-      ({ db with seq := db.seq + 1 } : DB).setKey (((({ db := db, k := db.getKey key, gone := !db.hasKey key } : W).modR rid
-        fun r => { r with eSched := none }).modR rid fun r => { r with expT := db.now + 30 }).schedExpried rid).k := by
-    unfold W.commit; simp [W.schedExpried, hk]
-  rw [hcm]
-  have hkey : (((({ db := db, k := db.getKey key, gone := !db.hasKey key } : W).modR rid
-        fun r => { r with eSched := none }).modR rid fun r => { r with expT := db.now + 30 }).schedExpried rid).k.key = key := by
-    simp [W.schedExpried, getKey_key]
-  have hg := getKey_setKey_same ({ db with seq := db.seq + 1 } : DB) (((({ db := db, k := db.getKey key, gone := !db.hasKey key } : W).modR rid
-        fun r => { r with eSched := none }).modR rid fun r => { r with expT := db.now + 30 }).schedExpried rid).k
-  rw [hkey] at hg
-  rw [hg]
-  have h1 : ((db.getKey key).modRec rid fun r => { r with eSched := none }).hasRec rid := (hasRec_modRec _ _ _ _ (fun _ => rfl)).mpr hm
-  have h2 : (((db.getKey key).modRec rid fun r => { r with eSched := none }).modRec rid fun r => { r with expT := db.now + 30 }).hasRec rid :=
-    (hasRec_modRec _ _ _ _ (fun _ => rfl)).mpr h1
-  have hr : ((((db.getKey key).modRec rid fun r => { r with eSched := none }).modRec rid fun r => { r with expT := db.now + 30 }).getR rid) =
-      { (db.getKey key).getR rid with eSched := none, expT := db.now + 30 } := by
-    rw [getR_modRec_same _ _ _ (fun _ => rfl) h1, getR_modRec_same _ _ _ (fun _ => rfl) hm]
-  simp only [W.schedExpried, modR_k, modR_db, modR_out]
-  have hrid : ({ (db.getKey key).getR rid with eSched := none, expT := db.now + 30 } : Rec).rid = rid := getR_rid _ _
-  rw [hr]
-  have hs := getR_setRec_same (((db.getKey key).modRec rid fun r => { r with eSched := none }).modRec rid fun r => { r with expT := db.now + 30 })
-    { ({ (db.getKey key).getR rid with eSched := none, expT := db.now + 30 } : Rec) with expried := false,
-        expT := (Slock.Engine.wheelAdd db.eCheck db.seq (db.now + 30) ((db.getKey key).getR rid).eChecked).1,
-        eSched := some (Slock.Engine.wheelAdd db.eCheck db.seq (db.now + 30) ((db.getKey key).getR rid).eChecked).2 }
-    (by simpa [getR_rid] using h2)
-  simp only [getR_rid] at hs
-  rw [hs]
-  refine ⟨rfl, ?_, rfl, rfl, ha, rfl, rfl, rfl, rfl⟩
+  obtain ⟨o1, o2, o3, o4, o5, o6, o7, o8⟩ := fireExpire_deferred (db.openKey key) rid hm hl hd he
+  have hg : ((db.openKey key).fireExpire rid).gone = false := by rw [o2]; simp [DB.openKey, hk]
+  have hkey : ((db.openKey key).fireExpire rid).k.key = key := by rw [o3]; exact getKey_key _ _
+  have hget : (fireExpire db key rid).1.getKey key = ((db.openKey key).fireExpire rid).k := by
+    unfold fireExpire W.commit
+    simp only [hg, Bool.false_eq_true, if_false]
+    have := getKey_setKey_same ((db.openKey key).fireExpire rid).db ((db.openKey key).fireExpire rid).k
+    rw [hkey] at this; exact this
+  rw [hget, o4, o5, o6, o7]
+  refine ⟨by unfold fireExpire; exact o1, ?_, rfl, rfl, ha, rfl, rfl, rfl, rfl⟩
+  show (Slock.Engine.wheelAdd db.eCheck db.seq (db.now + 30) ((db.getKey key).getR rid).eChecked).1 = db.now + 30
   simp only [Slock.Engine.wheelAdd]
   split
   · simp only []; split
